@@ -31,6 +31,8 @@ type Session struct {
 	Check func() string
 	// Dead is set after a panic or deadlock: the instance may hold locks.
 	Dead bool
+	// Diverged is set when a plan refers to a temporary name that this run never created.
+	Diverged bool
 }
 
 // Cred is the acting user of the session (nil = administrator).
@@ -233,20 +235,36 @@ func (s *Session) abstractName(real string) string {
 	return real
 }
 
-// rendering of abstract temp names back to real ones in path operands.
-func (s *Session) render(p Path) string {
-	if len(s.Tmp) == 0 {
-		return p.Render()
+// abstractPath maps the real temporary names inside a concrete path to their abstract names.
+func (s *Session) abstractPath(t string) Path {
+	p := ParsePath(t)
+	for i, c := range p.Parts {
+		p.Parts[i] = s.abstractName(c)
 	}
 
+	return p
+}
+
+// rendering of abstract temp names back to real ones in path operands.
+func (s *Session) render(p Path) string {
 	q := Path{Abs: p.Abs, Parts: make([]string, len(p.Parts))}
 
 	for i, c := range p.Parts {
 		q.Parts[i] = c
 
-		for real, abs := range s.Tmp {
-			if abs == c {
-				q.Parts[i] = real
+		if strings.HasPrefix(c, "~") {
+			found := false
+
+			for real, abs := range s.Tmp {
+				if abs == c {
+					q.Parts[i] = real
+					found = true
+				}
+			}
+
+			if !found {
+				// the plan names a temporary object this run never created: the run has left the plan
+				s.Diverged = true
 			}
 		}
 	}
@@ -413,21 +431,21 @@ func (s *Session) exec(c Call, res *Res) {
 		setErr(err)
 
 		if err == nil {
-			res.Path = ParsePath(t)
+			res.Path = s.abstractPath(t)
 		}
 	case "evalsymlinks":
 		t, err := vfs.EvalSymlinks(p)
 		setErr(err)
 
 		if err == nil {
-			res.Path = ParsePath(t)
+			res.Path = s.abstractPath(t)
 		}
 	case "getwd":
 		t, err := vfs.Getwd()
 		setErr(err)
 
 		if err == nil {
-			res.Path = ParsePath(t)
+			res.Path = s.abstractPath(t)
 		}
 	case "readdir":
 		des, err := vfs.ReadDir(p)
